@@ -14,8 +14,14 @@ EXPLANATION = (
     "a luaL_error arm for every non-matching shape (else arm per count, default arm of the switch), "
     "result count assigned in every call arm and returned; (R3) lua_statements templates only use "
     "defined fields, the stack index advances exactly for intent in/inout arguments, results are "
-    "pushed by the statement entry and counted.")
-NOT_DECIDED = "Behaviour of the compiled Lua binding on concrete argument stacks."
+    "pushed by the statement entry and counted; (R4) Lua flags reach generated declarations; (R5) argument type "
+    "tests, c_to_cxx order, result handling and the LUA_this_call sibling; (R6) stack layout of a method call: "
+    "first argument slot, argument count and type-test slots are shifted by one exactly where the object is "
+    "popped from slot 1.")
+NOT_DECIDED = ("Behaviour of the compiled Lua binding on concrete argument stacks.  Type groups for which "
+               "lua_statements has no entries (char: `const char *` arguments and results, class instances as "
+               "arguments, intent(out) pointers, vectors) fall back to the empty default and are outside the subset "
+               "the property names; they are listed as unmodelled, not decided.")
 
 FAMILY = {
     "integer": ("LUA_TNUMBER", "lua_tointeger", "lua_pushinteger"),
@@ -108,16 +114,19 @@ def rule_r2(repo, run):
               "by_count = [[] for i in range(maxargs + 1)]" in src and "by_count[a_call.nargs].append(a_call)" in src and
               "for nargs, calls in enumerate(by_count):" in src and 'lines.append("case {}:".format(nargs))' in src,
               "variants must be bucketed by their argument count and emitted as `case <count>:`", loc)
+    depth = [c for c in ast.walk(f) if isinstance(c, ast.Constant) and isinstance(c.value, str)
+             and re.match(r"int SH_nargs = lua_gettop\(\{LUA_state_var\}\)( - 1)?;$", c.value)]
     run.check(R, "wrapl.Wrapl.wrap_function:switch-on-depth",
-              '"int SH_nargs = lua_gettop({LUA_state_var});"' in src and 'lines.append("switch (SH_nargs) {")' in src,
-              "the switch must be on lua_gettop()", loc)
+              bool(depth) and 'lines.append("switch (SH_nargs) {")' in src,
+              "the switch must be on lua_gettop() (less the object of a method call)", loc)
     # type checks use the stack slot of the same argument
     run.check(R, "wrapl.Wrapl.wrap_function:type-tests",
               "for iarg, arg in enumerate(call.inargs):" in src and "fmt.itype_var = itype_vars[iarg]" in src and
               "fmt.itype = arg_typemap.LUA_type" in src and '"{itype_var} == {itype}"' in src and
               '"int {itype_var} = " "lua_type({LUA_state_var}, {iarg});"' in src and
-              "for iarg in range(1, maxargs + 1):" in src,
-              "argument i must be tested with lua_type(L, i) against the typemap's LUA_type", loc)
+              "for iarg in range(1, maxargs + 1):" in src and
+              (pat.has(f, "fmt.iarg = iarg") or pat.has(f, "fmt.iarg = iarg + MV_OFF")),
+              "argument i must be tested with lua_type(L, <slot of argument i>) against the typemap's LUA_type", loc)
     # error arms
     strs = [n for n in ast.walk(f) if isinstance(n, ast.Constant) and isinstance(n.value, str) and "luaL_error" in n.value]
     else_arm = [n for n in strs if n.value.startswith("else {{+")]
@@ -182,8 +191,12 @@ def rule_r3(repo, run, types):
     run.check(R, "wrapl.Wrapl.do_function:LUA_index", ok,
               "the Lua stack index must advance by one exactly for intent in/inout arguments", wl.loc(f))
     s = wl.seg(f)
-    run.check(R, "wrapl.Wrapl.do_function:index-start", "LUA_index = 1" in s and "fmt_arg.LUA_index = LUA_index" in s,
-              "the first argument is stack slot 1 and each argument records its slot before it is advanced", wl.loc(f))
+    starts = [a for a in ast.walk(f) if isinstance(a, ast.Assign) and pyflow.is_name(a.targets[0], "LUA_index")
+              and isinstance(a.value, ast.Constant)]
+    run.check(R, "wrapl.Wrapl.do_function:index-start", bool(starts) and all(a.value.value in (1, 2) for a in starts)
+              and "fmt_arg.LUA_index = LUA_index" in s,
+              "the first argument is stack slot 1 (2 behind the object of a method call) and each argument records its slot "
+              "before it is advanced", wl.loc(f))
     run.check(R, "wrapl.Wrapl.do_function:arg-order", "for iarg in range(luafcn.nargs):" in s and
               "arg = ast.params[iarg]" in s and "cxx_call_list.append(fmt_arg.cxx_var)" in s,
               "arguments must be popped and passed in declaration order", wl.loc(f))
@@ -288,6 +301,67 @@ def rule_r5(repo, run):
     run.floor(R, "default_format methods setting both scopes", nsib, 1)
 
 
+def rule_r6(repo, run):
+    R = run.rule("C18.R6", "a method is called as obj:name(args): wherever the object is taken from stack slot 1, the "
+                           "arguments start at slot 2, the argument count excludes the object and argument i is type-tested "
+                           "at slot i+1")
+    wl = repo.module("wrapl")
+    df = wl.func("Wrapl.do_function")
+    wf = wl.func("Wrapl.wrap_function")
+    seg = lambda n: str(wl.seg(n))
+    # where the object is popped
+    pops = [a for a in ast.walk(df) if isinstance(a, ast.Assign) and "LUA_pop" in seg(a.value) and "cls" in seg(a.value)]
+    if len(pops) != 1:
+        raise AnalysisError("C18.R6: the statement that pops the object of a method call was not found in do_function")
+    p_self = pyflow.path_atoms(pops[0], stop=df, seg=wl.seg)
+    if not p_self:
+        raise AnalysisError("C18.R6: the object is popped unconditionally: model out of date")
+    types = tables.TypeTable(repo)
+    # (a class typemap's LUA_pop reads slot 1: checked by C18.R1 on fill_shadow_typemap_defaults)
+    def const_values(expr):
+        """integer constants an initial-value expression can evaluate to, each with the node that carries it"""
+        if isinstance(expr, ast.IfExp):
+            return const_values(expr.body) + const_values(expr.orelse)
+        if isinstance(expr, ast.Constant) and isinstance(expr.value, int):
+            return [expr]
+        return [None]
+    inits = [a for a in ast.walk(df) if isinstance(a, ast.Assign) and pyflow.is_name(a.targets[0], "LUA_index")]
+    starts = [c for a in inits for c in const_values(a.value)]
+    if not starts or None in starts:
+        raise AnalysisError("C18.R6: initial value of LUA_index not found (or not a constant)")
+    behind = [c for c in starts if c.value == 2]
+    ok = len(behind) == 1 and pyflow.path_atoms(behind[0], stop=df, seg=wl.seg) == p_self and \
+        all(c.value == 1 for c in starts if c is not behind[0]) and len(starts) == 2
+    run.check(R, "wrapl.Wrapl.do_function:first-argument-slot", ok,
+              "the object of a method call is popped from slot 1 under %s, but the first argument slot is %s: obj:f(5) has the "
+              "object in slot 1 and 5 in slot 2 (a constructor is called through the module table, without an object)"
+              % (sorted(p_self), [(c.value, sorted(pyflow.path_atoms(c, stop=df, seg=wl.seg))) for c in starts]), wl.loc(starts[0]))
+    # overload / default dispatcher
+    tops = [c for c in ast.walk(wf) if isinstance(c, ast.Constant) and isinstance(c.value, str) and "SH_nargs = lua_gettop(" in c.value]
+    less = [c for c in tops if re.search(r"lua_gettop\([^)]*\)\s*-\s*1\s*;", c.value)]
+    canon_ = lambda t: re.sub(r"^(ast|node\.ast)\.is_ctor\(\)$", "is_ctor", t)
+    about = set(canon_(t) for t, p in p_self)
+    # only the conditions that speak about the object matter (the dispatcher is itself inside `if len(all_calls) == 1: else:`)
+    norm = lambda at: set((canon_(t), p) for t, p in at if canon_(t) in about)
+    ok = len(less) == 1 and norm(pyflow.path_atoms(less[0], stop=wf, seg=wl.seg)) == norm(p_self) and len(tops) == 2
+    run.check(R, "wrapl.Wrapl.wrap_function:count-excludes-object", ok,
+              "the dispatcher counts lua_gettop() items: for a method the object is one of them, so obj:set() is dispatched "
+              "as a one-argument call and obj:set(5) as a two-argument call (found %s)"
+              % [(c.value, sorted(pyflow.path_atoms(c, stop=wf, seg=wl.seg))) for c in tops], wl.loc(tops[0]) if tops else wl.loc(wf))
+    shift = pat.find(wf, "fmt.iarg = iarg + MV_OFF")
+    offs = set(env["OFF"] for _, env in shift)
+    ok = False
+    if len(offs) == 1:
+        off = offs.pop()
+        asg = [a for a in ast.walk(wf) if isinstance(a, ast.Assign) and pyflow.is_name(a.targets[0], off) and isinstance(a.value, ast.Constant)]
+        one = [a for a in asg if a.value.value == 1]
+        ok = len(one) == 1 and norm(pyflow.path_atoms(one[0], stop=wf, seg=wl.seg)) == norm(p_self) and \
+            all(a.value.value == 0 for a in asg if a is not one[0]) and len(asg) == 2
+    run.check(R, "wrapl.Wrapl.wrap_function:type-test-slot", ok,
+              "argument i of a method is in slot i+1: the type tests `lua_type(L, {iarg})` must be shifted by one exactly "
+              "when the object is on the stack", wl.loc(wf))
+
+
 def run(repo, run, tier):
     tables.check_model_assumptions(repo)
     types = tables.TypeTable(repo)
@@ -296,3 +370,4 @@ def run(repo, run, tier):
     rule_r3(repo, run, types)
     rule_x(repo, run)
     rule_r5(repo, run)
+    rule_r6(repo, run)
